@@ -214,7 +214,7 @@ pub fn into_tokens(c: char, it: &mut Peekable<Chars>, state: &mut State) -> LexR
                     }
                 }
 
-                back_slash = c == '\\';
+                back_slash = !back_slash && c == '\\';
             }
 
             if !terminated {
